@@ -343,6 +343,41 @@ def tlc(module, cfg, pid, name, trace=None, workers=1, timeout=1800, deque=True,
     return r
 
 
+def _defs(path, names):
+    """the text of top-level operator definitions (whitespace-normalised), for keeping a proof
+    module's copy of a definition identical to the one the trace spec uses"""
+    txt = open(path).read()
+    out = {}
+    for n in names:
+        m = re.search(r"^" + re.escape(n) + r"\([^)]*\)\s*==(.*?)(?=^\S|\Z)", txt, re.S | re.M)
+        out[n] = " ".join(l.split("\\*")[0].strip() for l in m.group(1).splitlines()).split() if m else None
+    return out
+
+
+def tlaps(module, pid, shared_with=None, shared=(), timeout=600):
+    """Checks spec/<module>.tla with the TLA+ proof system (fresh cache in the work directory).
+    Returns {"obligations", "proved", "wall_s"}; anything but "all proved" is a tool error (a proof
+    is about the specification, not about the code under test)."""
+    wd = os.path.join(workdir(pid), "tlaps_" + module)
+    shutil.rmtree(wd, ignore_errors=True)
+    os.makedirs(wd, exist_ok=True)
+    src = os.path.join(SPEC, module + ".tla")
+    shutil.copy(src, wd)
+    if shared_with:
+        a, b = _defs(src, shared), _defs(os.path.join(SPEC, shared_with + ".tla"), shared)
+        for n in shared:
+            if a[n] is None or a[n] != b[n]:
+                raise ToolError(f"{module}.tla: definition of {n} differs from {shared_with}.tla")
+    t0 = time.time()
+    p = subprocess.run(["timeout", str(timeout), "tlapm", "--threads", "4", module + ".tla"], cwd=wd,
+                       stdout=subprocess.PIPE, stderr=subprocess.STDOUT, text=True)
+    m = re.search(r"All (\d+) obligations? proved", p.stdout)
+    if not m:
+        f = re.search(r"(\d+)/(\d+) obligations failed", p.stdout)
+        raise ToolError(f"tlapm {module}: " + (f.group(0) if f else p.stdout[-300:]))
+    return {"module": module, "obligations": int(m.group(1)), "proved": int(m.group(1)), "wall_s": round(time.time() - t0, 1)}
+
+
 def parallel(fns, max_workers=12):
     with ThreadPoolExecutor(max_workers=max_workers) as ex:
         futs = [ex.submit(f) for f in fns]
